@@ -60,6 +60,13 @@ F('value_reductors__init_nth_reductor', r'constexpr void init_nth_reductor\(cons
   'void value_reductors__init_nth_reductor(struct value_reductors* self, size_t Nr)',
   [S(r'reductors\[Nr\] = &reduce_value<Nr, RequiresContext, F, value_type_t<L>, value_type_t<R>\.\.\.>;', 'self->reductors[vx_idx(Nr, P_RULES)] = vx_reduce_value_instance(Nr);', name='R13:function template instance -> ghost id')])
 
+F('value_reductors__init_reductors', r'constexpr void init_reductors\(const RuleTupleType& rule_tuple, std::index_sequence<I\.\.\.>\)',
+  'void value_reductors__init_reductors(struct value_reductors* self, const struct vx_rules* rule_tuple)',
+  [S(r'\(void\(init_nth_reductor<I>\(std::get<I>\(rule_tuple\)\)\), \.\.\.\);', 'for (size_t I = 0; I < P_RULES; ++I) VX_INIT_LOOP { value_reductors__init_nth_reductor(self, I); }', name='R21:pack expansion over I -> loop')])
+fns.append(Fn(name='value_reductors__ctor', header=r'constexpr value_reductors\(const RuleTupleType& rule_tuple\)', csig='void value_reductors__ctor(struct value_reductors* self, const struct vx_rules* rule_tuple)', scope=VR, ctor=True,
+              rules=[Call(r'VX_INIT__(\w+)', 'self->{m1} = ({args})', name='R19:member initializer'),
+                     S(r'init_reductors\(rule_tuple, std::make_index_sequence<std::tuple_size_v<RuleTupleType>>\{\}\);', 'value_reductors__init_reductors(self, rule_tuple);', name='R18:index_sequence argument')]))
+
 PRELUDE = r'''
 int vx_thrown;
 static inline size_t vx_idx(size_t i, size_t n) { __CPROVER_assert(i < n, "VX_BOUND subscript within the declared (logical) dimension"); return i; }
@@ -76,6 +83,11 @@ static inline vx_val vx_rule_f(const struct vx_rules* r, size_t k) { __CPROVER_a
 struct value_reductors { const struct vx_rules* rule_tuple; vx_val reductors[PH_RULES]; };
 char vx_inst_pool[PH_RULES];
 static inline vx_val vx_reduce_value_instance(size_t k) { return (vx_val)(vx_inst_pool + k); }
+size_t g_k;
+#define VX_INIT_LOOP \
+  __CPROVER_assigns(I, __CPROVER_object_upto(self->reductors, sizeof(self->reductors))) \
+  __CPROVER_loop_invariant(I <= P_RULES && (g_k < I ==> self->reductors[g_k] == (vx_val)(vx_inst_pool + g_k))) \
+  __CPROVER_decreases(P_RULES - I)
 /* ghost record of the one call that leaves the function */
 int g_calls, g_kind; vx_val g_f, g_res, g_target; struct vx_ref g_ctx; struct vx_pack_t g_args; const struct vx_rules* g_rules; vx_val* g_start;
 enum { VX_K_CONSTRUCT = 1, VX_K_F = 2, VX_K_F_CTX = 3, VX_K_REDUCTOR = 4 };
